@@ -4,6 +4,7 @@ import Mouette.Lemmas.CuttingNested
 import Mouette.Lemmas.CuttingPruneFix
 import Mouette.Lemmas.CuttingEuler
 import Mouette.Lemmas.CuttingDualTree
+import Mouette.Lemmas.CuttingTwins
 /-!
 # C16 — cutting along singularities (partial)
 
@@ -23,7 +24,9 @@ NOT proved (tree–cotree theorem; checked on every run by the oracle with `surf
 component with ONE border loop and Euler characteristic 1; every singular vertex has a copy on that border; the cut
 graph is connected. For χ: that a spanning tree of uncut dual edges makes all `2·|uncut|` corner unions effective
 (V' = F + 2) is proved in round 3 (`all_unions_effective_of_dual_forest`); what remains a hypothesis is that sides of the
-cut mesh coincide only when glued (false for the one-edge slit, an open finding), decided per run by the driver. The stages before pruning (shortest paths,
+cut mesh coincide only when glued (false for the one-edge slit, an open finding), decided per run by the driver; round 4: the
+other two edge hypotheses (`hR`, `hdisj`: no corner starts two glued sides) are PROVED from the uncut edges being distinct
+undirected edges (`no_corner_starts_two_glued_sides`, `euler_characteristic_of_dual_tree_partial2`). The stages before pruning (shortest paths,
 Kruskal on paths, dual Dijkstra) are not modelled.
 -/
 namespace Mouette.Props.C16
@@ -407,6 +410,54 @@ theorem euler_iff_vertex_count {nV : Nat} {F : List Face} {uncut : List (Nat × 
   constructor
   · intro hchi; omega
   · intro hall; rw [hall, hlen] at hv; omega
+
+/-! ## round 4: the hypotheses `hR`, `hdisj` are discharged -/
+
+/-- No corner starts two glued sides, as soon as the uncut pairs are pairwise distinct and none is the reverse of another
+(distinct undirected non-loop edges — what `mesh.edges` restricted to the uncut interior edges is): the hypotheses `hR` and
+`hdisj` of `edge_count_partial` / `euler_characteristic_*_partial` are theorems. -/
+theorem no_corner_starts_two_glued_sides {F : List Face} (tri : AllTri F) (uncut ps : List (Nat × Nat))
+    (hps : unionPairs (halfEdges F) (cornerFaces F) uncut = some ps) (nd : uncut.Nodup)
+    (norev : ∀ x, x ∈ uncut → ∀ y, y ∈ uncut → x ≠ (y.2, y.1)) :
+    ((twins ps).map Prod.snd).Nodup ∧ ∀ t, t ∈ twins ps → t.1 ∉ (twins ps).map Prod.snd :=
+  edge_hyps_of_distinct_edges tri uncut ps hps nd norev
+
+/-- χ(cut mesh) = 1 for a dual SPANNING TREE of distinct uncut edges. Still `_partial`, but only ONE hypothesis about the
+output is left: `sep` (sides of the cut mesh coincide only when glued — false for the one-edge slit, an open finding).
+FULL STATEMENT (not proved): the same without `sep`, for a manifold input whose cut graph is not a single edge. -/
+theorem euler_characteristic_of_dual_tree_partial2 {nV : Nat} {F : List Face} {uncut : List (Nat × Nat)} {o : Out}
+    (tri : AllTri F) (h : build nV F uncut = .ok o) (ps : List (Nat × Nat))
+    (hps : unionPairs (halfEdges F) (cornerFaces F) uncut = some ps)
+    (nd : uncut.Nodup) (norev : ∀ x, x ∈ uncut → ∀ y, y ∈ uncut → x ≠ (y.2, y.1))
+    (tree_size : uncut.length + 1 = F.length)
+    (one_class : ∀ es, ps = pairsOfEdges es → (applyUnions (ufRange F.length) (facePairs es)).nComps = 1)
+    (sep : ∀ a b, a < 3 * F.length → b < 3 * F.length → sideKey o a = sideKey o b →
+      a = b ∨ (a, b) ∈ twins ps ∨ (b, a) ∈ twins ps) :
+    (o.pos.length : Int) - (edgeCount o F.length : Int) + (F.length : Int) = 1 := by
+  obtain ⟨hR, hdisj⟩ := no_corner_starts_two_glued_sides tri uncut ps hps nd norev
+  have hne : ∀ ab, ab ∈ uncut → ab.1 ≠ ab.2 := by
+    intro ab hab heq
+    apply norev ab hab ab hab
+    cases ab with
+    | mk a b => simp only [] at heq; subst heq; rfl
+  exact euler_characteristic_of_dual_tree_partial tri h ps hps hne tree_size one_class hR hdisj sep
+
+/-- the general Euler formula with `hR`, `hdisj` discharged: χ = F + |uncut| − (effective corner unions) -/
+theorem euler_formula_partial2 {nV : Nat} {F : List Face} {uncut : List (Nat × Nat)} {o : Out}
+    (tri : AllTri F) (h : build nV F uncut = .ok o) (ps : List (Nat × Nat))
+    (hps : unionPairs (halfEdges F) (cornerFaces F) uncut = some ps)
+    (nd : uncut.Nodup) (norev : ∀ x, x ∈ uncut → ∀ y, y ∈ uncut → x ≠ (y.2, y.1))
+    (sep : ∀ a b, a < 3 * F.length → b < 3 * F.length → sideKey o a = sideKey o b →
+      a = b ∨ (a, b) ∈ twins ps ∨ (b, a) ∈ twins ps) :
+    (o.pos.length : Int) - (edgeCount o F.length : Int) + (F.length : Int)
+      = (F.length : Int) + (uncut.length : Int) - (effCount (ufRange (3 * F.length)) ps : Int) := by
+  obtain ⟨hR, hdisj⟩ := no_corner_starts_two_glued_sides tri uncut ps hps nd norev
+  exact euler_formula_partial tri h ps hps hR hdisj sep
+
+example : ([(0, 2)] : List (Nat × Nat)).Nodup ∧ ∀ x, x ∈ [((0 : Nat), (2 : Nat))] → ∀ y, y ∈ [((0 : Nat), (2 : Nat))] → x ≠ (y.2, y.1) := by
+  refine ⟨by decide, ?_⟩
+  intro x hx y hy
+  simp at hx hy; subst hx; subst hy; decide
 
 /-! ## pruning (P1) -/
 
